@@ -1188,6 +1188,13 @@ func streamC12(r *Rand, n int, o *Out) {
 				}
 			case 4, 5, 6:
 				v := genSetterValue(rr, 7)
+				// re-assigning the current text (after list mutations the list is in general NOT the parse of it: names with
+				// & = + %) must re-initialise the list like any other value
+				if rr.P(25) {
+					v = u.Search()
+				} else if rr.P(8) {
+					v = u.Query()
+				}
 				h.Set(k, 7, v)
 				orc.Eval("C12")
 				d := url.VerifDump(u)
